@@ -979,11 +979,17 @@ class NetworkGraph(AbstractBaseIR):
                     weighting = ""
                 else:
                     weighting = f" * {w_str}"
-                    args[w_str] = {'vtype': 'constant', 'dtype': 'float', 'value': weight if ssize > 1 else weight[0]}
+                    args[w_str] = {'vtype': 'constant', 'dtype': 'float',
+                                   'value': weight if ssize > 1 or len(weight) > 1 else weight[0]}
 
                 # get final source and target strings
-                s_str_final = _get_indexed_var_str(s_str, sidx, ssize, reduce=m == 1 and tsize > 1 and n == 1,
-                                                   idx_str=sidx_str, arg_dict=args)
+                if ssize == 1 and m > 1:
+                    # a single source unit projecting to several targets: the source is a scalar at runtime and cannot be
+                    # indexed; it is broadcast against the weight vector / the indexed target instead
+                    s_str_final = s_str
+                else:
+                    s_str_final = _get_indexed_var_str(s_str, sidx, ssize, reduce=m == 1 and tsize > 1 and n == 1,
+                                                       idx_str=sidx_str, arg_dict=args)
                 t_str_final = _get_indexed_var_str(t_str, tidx, tsize, reduce=tsize > 1 or ssize < tsize,
                                                    idx_str=tidx_str, arg_dict=args)
 
